@@ -151,9 +151,27 @@ def perturbed_params(rng, m, rel=0.15):
     return [float(np.round(v, 6)) for v in q]
 
 
-def gen_xy_spec(rng, family=None, n=None, cost="chi2", counts=False, minimizer=None, dea="nonlinear", noise=0.1):
+def gen_xy_spec(rng, family=None, n=None, cost="chi2", counts=False, minimizer=None, dea="nonlinear", noise=0.1, counts_from_model=None):
+    """counts_from_model=s: counts are drawn from the model itself with its unit-carrying parameters scaled by s (well-posed
+    Poisson problem; the truth is returned in spec['truth'] and becomes the model's default values)"""
     family = family or str(rng.choice(list(FAMILIES)))
     m = Model(family)
+    if counts and counts_from_model:
+        from .models import UNIT_PARAMS
+
+        n = n or int(rng.integers(max(len(m.pnames) + 1, 3), 11))
+        x = gen_x(rng, n, kind="increasing" if family == "powerlaw" else None)
+        if family == "powerlaw":
+            x = [abs(v) + 0.2 for v in x]
+        truth = perturbed_params(rng, m, 0.05)
+        truth = [float(np.round(v * counts_from_model, 5)) if nm in UNIT_PARAMS[family] else v for nm, v in zip(m.pnames, truth)]
+        lam = m.f(np.array(x), truth)
+        if np.any(lam <= 0.5):
+            # keep expectations positive: raise the offset-like parameter if there is one, else fall back to |lambda| + 1
+            lam = np.abs(lam) + 1.0
+        y = rng.poisson(lam).astype(float)
+        m2 = Model(family, defaults=truth)
+        return {"type": "xy", "model": m2.spec(), "cost": cost, "x": x, "y": [float(v) for v in y], "minimizer": minimizer, "dea": dea, "truth": truth}
     n = n or int(rng.integers(max(len(m.pnames) + 1, 3), 11))
     x = gen_x(rng, n, kind="increasing" if family == "powerlaw" else None)
     if family == "powerlaw":
@@ -169,8 +187,8 @@ def gen_xy_spec(rng, family=None, n=None, cost="chi2", counts=False, minimizer=N
     return spec
 
 
-def gen_indexed_spec(rng, family=None, n=None, cost="chi2", counts=False, minimizer=None, dea="nonlinear", noise=0.1):
-    s = gen_xy_spec(rng, family, n, cost, counts, minimizer, dea, noise)
+def gen_indexed_spec(rng, family=None, n=None, cost="chi2", counts=False, minimizer=None, dea="nonlinear", noise=0.1, counts_from_model=None):
+    s = gen_xy_spec(rng, family, n, cost, counts, minimizer, dea, noise, counts_from_model)
     s["type"] = "indexed"
     s["data"] = s.pop("y")
     return s
